@@ -438,6 +438,7 @@ def run(ctx):
 
     # ================================================================= real-expanded quaternion_schur
     _check_real_schur(ctx, f_real, prog)
+    _check_real_schur_sweep_deflation(ctx, f_real)
 
     # ================================================================= D4 shift estimator: no division by an unchecked zero norm
     _check_shift_estimator(ctx, prog)
@@ -631,6 +632,58 @@ def _check_real_schur(ctx, f_real, prog):
         ctx.ob("C10.D1.composition", tag, arrays_same(Q, ref_matmul(ref_hermitian(rec["P0"]), eyeq(n))),
                "with no sweep performed Q must be P0^H", where=f_real.where,
                construct="real-expanded: Q_total != P0^H Q_accum", loc=f_real.loc())
+
+
+def _check_real_schur_sweep_deflation(ctx, f_real):
+    """quaternion_schur, one iteration, every tolerance test met AFTER the sweep answered "small": each sub-diagonal entry that
+    the post-sweep deflation pass sets to zero must be the entry whose own modulus was compared with the tol-proportional bound
+    (D2 on the iterate that is actually modified, not on an earlier iterate)."""
+    n = 2
+    rec = {"sweeps": [], "G": []}
+
+    def s_hess(it, A):
+        rec["P0"], rec["H0"] = sym_quat("p0_", (n, n)), sym_quat("h0_", (n, n))
+        return rec["P0"], rec["H0"].copy()
+
+    def s_giv(it, x1, x2):
+        G = sym_real(f"g{len(rec['G'])}_", (8, 8))
+        rec["G"].append(G)
+        return G
+
+    def pol(cond, node, interp, r):
+        parts = cond_parts(cond)
+        if parts is None:
+            return None
+        if rec["sweeps"] and parts[0] in ("le", "lt") and is_tol_cond(cond):
+            return True
+        return False
+    chooser = Recorder(pol)
+    it, d = new_interp(ctx, chooser=chooser,
+                       summaries={"decomp.hessenberg:hessenbergize": s_hess,
+                                  "decomp.hessenberg:check_hessenberg": lambda it, H, atol=1e-12: H.copy(),
+                                  "utils:ggivens": s_giv})
+
+    def after(interp, node, fobj, args, kwargs, result):
+        if isinstance(fobj, FuncRef) and fobj.fi.name == "_apply_single_shift":
+            rec["sweeps"].append(np.asarray(result[0], dtype=object).copy())
+    it.after_call = after
+    tag = f"real-expanded n={n} shift=rayleigh, post-sweep entries negligible"
+    st, out = run_guarded(lambda: it.run(f_real, [sym_quat("a", (n, n))],
+                                         dict(max_iter=1, tol=TOL, shift="rayleigh", return_diagnostics=True)))
+    if st != "ok":
+        ctx.ob("C10.D2.deflation", tag, False, f"fails in-domain: {out}", where=f_real.where, construct="real-expanded fails",
+               loc=f_real.loc())
+        return
+    if not rec["sweeps"]:
+        ctx.ob("C10.D2.deflation", tag, True, where=f_real.where, construct="unguarded deflation store", loc=f_real.loc())
+        return
+    Q, T, diag = out
+    HRl = rec["sweeps"][-1]
+    Tpre = mk((n, n), "quat")
+    for i in range(n):
+        for j in range(n):
+            Tpre[i, j] = SQ(*[HRl[4 * i + p, 4 * j] for p in range(4)])
+    check_deflation(ctx, f_real, tag, chooser.log, Tpre, T, n)
 
 
 def _pre_cleanup(H0, T):
